@@ -757,6 +757,7 @@ class _DiskEngine:
 
 
 class C12Engine(_DiskEngine):
+    ESSENTIAL = ["reach_load/judged", "reach_save/acknowledged"]
     name = "simdisk/C12"
     RULE = ("one run = one seeded history of 2-6 saves / loads (and informational torn-file probes) of 1-4 generated sequences "
             "(signatures on one carrier sequence, duplicated, or one consistent timeline spread over the sequences; program / control "
@@ -1422,6 +1423,7 @@ def _c13_simplify(trace):
 
 
 class C13Engine(_DiskEngine):
+    ESSENTIAL = ["reach_load/judged"]
     name = "simdisk/C13"
     RULE = ("one run = one generated MIDI file (ticks-per-beat from 17 values incl. 7, 13, 25, 100, 1000; 1-5 tracks; notes on 16 "
             "channels; note-off as note_off or note_on velocity 0; major and minor key signatures; messages S-Coda ignores (tempo, text, "
